@@ -90,8 +90,8 @@ def run_lib(pid, tier):
             res.cov["samples"].append({"history": json.loads(open(path).readlines()[min(1500, n - 1)])})
     if pid == "C18":
         search_part(res, work, tier)
-    if pid == "C20":
-        arena_part(res, work, tier)
+    if pid in ("C20", "C04"):
+        arena_part(res, work, tier, pid)
     res.cov["traces_validated_against_impl"] = total
     res.cov["evaluations"] = total
     res.cov["distinct_nontrivial"] = total
@@ -145,16 +145,18 @@ def search_part(res, work, tier):
     res.cov["search_listing_sizes"] = sorted({len(e["all"]) for e in events})
 
 
-def arena_part(res, work, tier):
-    """C20: Arena.tla (builder / delete_branch / patch, implementation-shaped) model-checked, its slips rejected, and the
-    real arena validated against it node by node after every write of every Gen_Arena history"""
+def arena_part(res, work, tier, pid="C20"):
+    """Arena.tla (builder / delete_branch / patch / reference index, implementation-shaped) model-checked, its slips rejected, and
+    the real arena and the answers of the real reference index validated against it node id by node id after every write of every
+    Gen_Arena history.  C20 is judged on the structure (nodes, keys, forest invariants), C04 on the index (what the incrementally
+    maintained index answers = what Arena.tla's index answers, which TLC shows equal to a fresh index)."""
     vh = build_harness()
     r = tlc("MC_Arena.tla", "MC_Arena.cfg" if tier == "quick" else "MC_Arena_thorough.cfg", os.path.join(work, "mc_arena"), workers=4,
             timeout=1800, coverage=True, heap="6g")
     if not tlc_ok(r):
         res.violation(save_replay(work, "C20_arena_design", {"tlc_output": r["out"][-6000:]}), "TLC: Arena.tla violates the forest properties")
     res.add_tlc("MC_Arena", r)
-    for cfg in ("MC_Arena_stop.cfg", "MC_Arena_reuse.cfg"):
+    for cfg in ("MC_Arena_stop.cfg", "MC_Arena_reuse.cfg", "MC_Arena_index.cfg", "MC_Arena_reuse_index.cfg"):
         rr = tlc("MC_Arena.tla", cfg, os.path.join(work, "mc_" + cfg), workers=2, timeout=600)
         if "is violated" not in rr["out"]:
             raise ToolError(cfg + " no longer fails: the spec lost its teeth")
@@ -184,7 +186,8 @@ def arena_part(res, work, tier):
         for i, vs in ex.map(judge, range(shards)):
             lines += sum(1 for _ in open(evs[i]))
             for v in vs:
-                if v["hist"] in reported:
+                v["bad"] = [b for b in v["bad"] if (b[0] == "index") == (pid == "C04")]
+                if not v["bad"] or v["hist"] in reported:
                     continue
                 reported.add(v["hist"])
                 if len(reported) > 40:
@@ -192,8 +195,8 @@ def arena_part(res, work, tier):
                     continue
                 ops = [json.loads(l) for l in open(evs[i]) if '"hist":%d,' % v["hist"] in l]
                 small = [{k: e.get(k) for k in ("ev", "k", "md")} for e in ops]
-                p = save_replay(work, "C20_arena_%d" % v["hist"], {"property": "C20", "reasons": v["bad"][:6], "step": v["step"], "calls": small})
-                res.violation(p, "arena after %s step %d of history %d differs from Arena.tla: %s" % (v["ev"], v["step"], v["hist"], json.dumps(v["bad"])[:300]))
+                p = save_replay(work, "%s_arena_%d" % (pid, v["hist"]), {"property": pid, "reasons": v["bad"][:6], "step": v["step"], "calls": small})
+                res.violation(p, "%s after %s step %d of history %d differs from Arena.tla: %s" % ("reference index" if pid == "C04" else "arena", v["ev"], v["step"], v["hist"], json.dumps(v["bad"])[:300]))
     res.cov["arena_histories"] = n
     res.cov["arena_calls_validated"] = lines
     res.assumptions.append("arena binding: model trees are rendered to Markdown by the harness (one fixed rendering per node kind)")
